@@ -32,11 +32,15 @@ func (b *BFS) Search() (states, transitions int64, completedDepth int) {
 		}
 		results := make([][]succ, Workers)
 		var trans int64
+		cut := false
 		b.Run.Parallel(func(w, n int, l *Local) {
 			var local []succ
 			var t int64
-			for i := w; i < len(frontier); i += n {
-				if i%1024 == 0 && b.Run.Expired() {
+			for i, k := w, 0; i < len(frontier); i, k = i+n, k+1 {
+				if k%16 == 0 && b.Run.Expired() {
+					mu.Lock()
+					cut = true
+					mu.Unlock()
 					break
 				}
 				h := frontier[i]
@@ -74,6 +78,9 @@ func (b *BFS) Search() (states, transitions int64, completedDepth int) {
 			}
 		}
 		frontier = next
+		if cut {
+			return states, transitions, depth - 1 // the level was cut by the deadline: not completed
+		}
 		completedDepth = depth
 		if len(frontier) == 0 {
 			break
